@@ -215,5 +215,9 @@ def run(ctx, rep):
     rep.not_decided += ["the contents of `defined` / `resolved` as string sets (C05 (e))", "text of the messages"]
     import common_g
     rep.floor("IN", "grammar actions feeding this rule", common_g.emit_inputs(ctx, rep, "C06"), 5)
+    import loopstate
+    loopstate.rule(ctx, rep, "C06", ['validation::check_imports', 'validation::check_declared_parcelables', 'validation::resolve_types'])
+    import pipeline
+    pipeline.rule(ctx, rep, "C06", ['resolve_types', 'check_imports', 'check_declared_parcelables'])
     rep.assumptions += ["TB-1 rustc MIR", "TB-4 tabulator", "TB-3 HashMap entry / contains semantics; iteration yields every stored entry once",
                         "the fold and the loops carry no state between elements besides the map and the append-only diagnostics"]
